@@ -137,6 +137,13 @@ func (mem *Mempool) checkTxs(msg *queue.Message) *queue.Message {
 		msg.Data = types.ErrTxGroupHeader
 		return msg
 	}
+	// expiry of the whole group is judged on the wrapper, whose Header really is the encoded group; the per-member
+	// check below decodes each member's 32-byte Header hash as a group and skips the member's own expiry when
+	// that hash happens to be well-formed protobuf
+	if valid, err := mem.CheckExpireValid(msg); !valid {
+		msg.Data = err
+		return msg
+	}
 	//txgroup 的交易，逐笔走 checkTx（已含黑名单深度判定）
 	for i := 0; i < len(txs.Txs); i++ {
 		msgitem := mem.checkTx(&queue.Message{Data: txs.Txs[i]})
